@@ -7,7 +7,8 @@
 //	rules_test.go    rule histories against a fault-injecting, snapshotting datastore double
 //	outbound_test.go the real gater in a real swarm over scripted transports (outbound)
 //	inbound_test.go  the real gater behind the real upgrader over in-memory conns (inbound)
-//	quic_test.go     the QUIC transport's own gating call sites over simnet
+//	quic_test.go     the QUIC and WebTransport transports' own gating call sites over simnet, under both
+//	                 ConnManager configurations (bare / scope opened at accept as in libp2p.New)
 //	witness_test.go  minimal deterministic witnesses of the two defects found
 package c10
 
@@ -45,7 +46,10 @@ func TestMain(m *testing.M) {
 			"(b) the real gater (optionally reopened from its datastore) inside a real swarm over scripted transports with a fake DNS resolver: every recorded transport dial, every DialPeer "+
 			"result, ConnsToPeer and Connected notifications are audited against the model over two phases with rule changes in between. "+
 			"(c) the real gater behind the real upgrader (Noise + yamux) on an in-memory listener inside a real swarm: per inbound attempt the raw server-side conn's byte counters, "+
-			"its closure and the swarm's admission are audited; QUIC's own call sites run over simnet with arbitrary source IPs. "+
+			"its closure and the swarm's admission are audited; the QUIC and the WebTransport transports' own call sites (listener and dialer) run over simnet with arbitrary source IPs, "+
+			"WebTransport alone or next to QUIC on the same ConnManager and UDP port, each under both ConnManager configurations: bare quicreuse.NewConnManager, and with the ConnContext option "+
+			"of libp2p.New's default ConnManager that opens the resource-manager scope when the QUIC connection is accepted (the listeners then find the scope in the connection context); "+
+			"per attempt the gated swarm's ConnsToPeer/Connected, the DialPeer result and the remote's view (no inbound connection from a gated dial; no connection left open from a refused inbound one) are audited. "+
 			"Per history every crash point is enumerated (one snapshot per applied write); histories, faults and remotes are sampled. "+
 			"Non-trivial = a probed/dialled/accepted remote matches a rule in force through a non-canonical form (mapped spelling, 16-byte rule vs 4-byte remote, subnet rule hit at an edge address, "+
 			"resolved DNS name) or the case contains a reopen on a non-empty rule set; distinct = distinct (pool, op history, attempts).",
@@ -55,7 +59,8 @@ func TestMain(m *testing.M) {
 		"masks that are not CIDR prefixes are generated rarely (net.IPNet allows them, Contains honours them; known finding "+kfMask+" removes them from the generator while listed as known)",
 		"whether an IPv6 subnet shorter than /96 that covers ::ffff:0:0/96 (e.g. ::/0) matches IPv4 remotes is left unspecified; all textual forms of one IP must still agree",
 		"IP values have length 4 or 16; a Block*/Unblock* call that returns an error leaves the model unchanged whatever the reason",
-		"inbound forms are those a net.Addr can produce plus hand-built /ip6/::ffff: multiaddrs; WebTransport and WebRTC listeners' own call sites are not driven",
+		"inbound forms are those a net.Addr can produce plus hand-built /ip6/::ffff: multiaddrs; the WebRTC listener's own call site is not driven",
+		"the scope-at-accept ConnManager configuration copies the ConnContext function of config/config.go over a NullResourceManager (a full libp2p.New host is not built); VerifySourceAddress and metrics options are left out",
 		"a relay (p2p-circuit) address whose relay IP is blocked may or may not be refused (the remote is the peer behind the relay)",
 	)
 	hx.Main(m)
